@@ -25,36 +25,36 @@ Check (C07_deps_pre_fix_refuted :
   exists stat incl k f x,
     In (k, f) stat /\ free_field x f /\ In x (rec_fields stat incl) /\
     ~ (exists d, In (k, d) (deps_stat true stat incl) /\ In x d)).
-Check (C07_override_refines : forall st rid, coherent st rid ->
+Check (C07_override_refines : forall u st rid, coherent u st rid ->
   forall fuel k, ifield fuel st rid k = sfield fuel (abs st rid) k).
-Check (C07_eval_literal_ok : forall c st l,
-  faithful c -> NoDup (lit_names l) ->
+Check (C07_eval_literal_ok : forall u c st l,
+  faithful u c -> NoDup (lit_names l) -> (u = true -> lit_closed l) ->
   exists st', eval_literal c st l = Some (st', length (recs st)) /\
-              extends st st' /\ coherent st' (length (recs st)) /\
+              extends st st' /\ coherent u st' (length (recs st)) /\
               srec_sim (abs st' (length (recs st))) (sden_lit l)).
-Check (C07_merge_ok : forall c st rid1 rid2,
-  faithful c -> coherent st rid1 -> coherent st rid2 ->
+Check (C07_merge_ok : forall u c st rid1 rid2,
+  faithful u c -> coherent u st rid1 -> coherent u st rid2 ->
   exists st' rid', merge c st rid1 rid2 = Some (st', rid') /\
-                   extends st st' /\ coherent st' rid' /\
+                   extends st st' /\ coherent u st' rid' /\
                    srec_sim (abs st' rid') (smerge (abs st rid1) (abs st rid2))).
-Check (C07_merge_refines : forall c st rid1 rid2 st' rid',
-  faithful c -> coherent st rid1 -> coherent st rid2 ->
+Check (C07_merge_refines : forall u c st rid1 rid2 st' rid',
+  faithful u c -> coherent u st rid1 -> coherent u st rid2 ->
   merge c st rid1 rid2 = Some (st', rid') ->
   forall fuel k, ifield fuel st' rid' k = sfield fuel (smerge (abs st rid1) (abs st rid2)) k).
-Check (C07_operands_unchanged : forall c st rid1 rid2 st' rid',
-  faithful c -> coherent st rid1 -> coherent st rid2 ->
+Check (C07_operands_unchanged : forall u c st rid1 rid2 st' rid',
+  faithful u c -> coherent u st rid1 -> coherent u st rid2 ->
   merge c st rid1 rid2 = Some (st', rid') ->
-  forall r, coherent st r -> forall fuel k, ifield fuel st' r k = ifield fuel st r k).
-Check (C07_extends_coherent : forall st st' rid,
-  extends st st' -> coherent st rid -> coherent st' rid /\ abs st' rid = abs st rid).
+  forall r, coherent u st r -> forall fuel k, ifield fuel st' r k = ifield fuel st r k).
+Check (C07_extends_coherent : forall u st st' rid,
+  extends st st' -> coherent u st rid -> coherent u st' rid /\ abs st' rid = abs st rid).
 Check (C07_slookup_smerge : forall R1 R2 k,
   slookup k (smerge R1 R2) = smerge_opt (slookup k R1) (slookup k R2)).
 Check (C07_sfield_sim : forall R R', srec_sim R R' -> forall fuel k, sfield fuel R k = sfield fuel R' k).
-Check (C07_history_refines : forall c h,
-  faithful c -> lits_ok h ->
-  let (st, slots) := irun c h in Forall2 (slot_ok st) slots (srun h)).
-Check (C07_history_fields : forall c h i,
-  faithful c -> lits_ok h ->
+Check (C07_history_refines : forall u c h,
+  faithful u c -> lits_ok u h ->
+  let (st, slots) := irun c h in Forall2 (slot_ok u st) slots (srun h)).
+Check (C07_history_fields : forall u c h i,
+  faithful u c -> lits_ok u h ->
   let (st, slots) := irun c h in
   match nth_error slots i, nth_error (srun h) i with
   | Some (Rid r), Some (Some R) => forall fuel k, ifield fuel st r k = sfield fuel R k
@@ -62,9 +62,28 @@ Check (C07_history_fields : forall c h i,
   | None, None => True
   | _, _ => False
   end).
+Check (C07_history_fields_unknown : forall h i,
+  hist_closed h ->
+  let (st, slots) := irun (with_unknown cfg_fixed) h in
+  match nth_error slots i, nth_error (srun h) i with
+  | Some (Rid r), Some (Some R) => forall fuel k, ifield fuel st r k = sfield fuel R k
+  | Some BadRef, Some None => True
+  | None, None => True
+  | _, _ => False
+  end).
+Check (C07_depsunknown_equiv : forall h i,
+  hist_closed h ->
+  let (st, slots) := irun cfg_fixed h in
+  let (stu, slotsu) := irun (with_unknown cfg_fixed) h in
+  match nth_error slots i, nth_error slotsu i with
+  | Some (Rid r), Some (Rid ru) => forall fuel k, ifield fuel stu ru k = ifield fuel st r k
+  | Some BadRef, Some BadRef => True
+  | None, None => True
+  | _, _ => False
+  end).
 Check (C07_vars_free : forall t x, In x (vars t) <-> free x (emb t)).
-Check (C07_cfg_fixed_faithful : faithful cfg_fixed).
-Check (C07_cfg_partA_faithful : faithful cfg_partA).
+Check (C07_cfg_fixed_faithful : faithful false cfg_fixed).
+Check (C07_cfg_partA_faithful : faithful false cfg_partA).
 Check (C07_literal_deps_agree_stat : forall (l : literal) k d x,
   In (k, d) l -> fdyn d = false ->
   exists ds, In (k, ds) (deps_stat false (emb_stat l) []) /\
@@ -76,7 +95,7 @@ Check (C07_literal_deps_agree_dyn : forall (l : literal) k d x,
 Check (C07_static_history_same : forall b c h,
   hist_static h -> forall sd, irun_from (set_wrap b c) sd h = irun_from c sd h).
 Check (C07_history_fields_current : forall h i,
-  hist_static h -> lits_ok h ->
+  hist_static h -> lits_ok false h ->
   let (st, slots) := irun cfg_current h in
   match nth_error slots i, nth_error (srun h) i with
   | Some (Rid r), Some (Some R) => forall fuel k, ifield fuel st r k = sfield fuel R k
